@@ -822,6 +822,23 @@ fn dense_identifier_prefix(conn: &mut Conn<'_, '_>) {
         (1 + w.tape.choose(8), w.tape.choose(8), w.tape.choose(3))
     });
     let opts = ExecOpts { cancellable: true, idle_cancel: true, budget_us: None, timer_is_idle: true };
+    // half of the blocks straddle the wrap: one of the long-lived operations owns 65535, so the
+    // scan for a free identifier has to step from 65535 over 0 to 1
+    let straddle = with(|w| {
+        if w.tape.chance(1, 2) {
+            let already = if (65000..=65535).contains(&w.cfg.id_burn) { 0 } else { w.cfg.id_burn };
+            let first = 65535 - w.tape.choose(n2 + n1);
+            w.probe("dense_identifier_block_straddles_wrap");
+            Some((first - 1).saturating_sub(already))
+        } else {
+            None
+        }
+    });
+    if let Some(pre) = straddle {
+        if pre > 0 {
+            conn.verif_burn_packet_ids(pre);
+        }
+    }
     let mut allocated = 0u32;
     for _ in 0..n2 {
         let spec = with(|w| {
